@@ -6,6 +6,38 @@ import ast
 from ..common import LEAN, REPO, write_if_changed
 
 
+# the statements of the base `Node` methods that Io/Audit.lean, Io/Trace.lean and Io/GetTree.lean were written against
+# (normalised source, docstrings dropped).  `baseNodeMethodsAsModelled` says the current source still has exactly these.
+BASE_NODE_BODIES = {
+    "__init__": [
+        "self.class_name, self.module_name = (state['__class__'], state['__module__'])",
+        "self._is_safe = None",
+        "self._constructed = UNINITIALIZED",
+        "saved_id = state.get('__id__')",
+        "if saved_id and memoize:\n    load_context.memoize(self, saved_id)",
+        "self.trusted = self._get_trusted(trusted, [])",
+        "self.children: dict[str, VALID_NODE_CHILD_TYPES] = {}"
+    ],
+    "construct": [
+        "if self._constructed is not UNINITIALIZED:\n    return self._constructed",
+        "self._constructed = self._construct()",
+        "return self._constructed"
+    ],
+    "is_self_safe": [
+        "return check_type(self.module_name, self.class_name, self.trusted)"
+    ],
+    "is_safe": [
+        "if self.trusted is True:\n    return True",
+        "return len(self.get_unsafe_set()) == 0"
+    ],
+    "get_unsafe_set": [
+        "if hasattr(self, '_computing_unsafe_set'):\n    return set()",
+        "with temp_setattr(self, _computing_unsafe_set=True):\n    res = set()\n    if not self.is_self_safe():\n        res.add(self.module_name + '.' + self.class_name)\n    for child in self.children.values():\n        if child is None:\n            continue\n        if isinstance(child, list):\n            for value in child:\n                res.update(value.get_unsafe_set())\n        elif isinstance(child, dict):\n            for value in child.values():\n                res.update(value.get_unsafe_set())\n        elif isinstance(child, Node):\n            res.update(child.get_unsafe_set())\n        elif type(child) is type:\n            if not check_type(get_module(child), child.__name__, self.trusted):\n                res.add(get_module(child) + '.' + child.__name__)\n        elif isinstance(child, (io.BytesIO, str)):\n            continue\n        else:\n            raise ValueError(f'Cannot determine the safety of type {type(child)}. Please open an issue at https://github.com/skops-dev/skops/issues for us to fix the issue.')",
+        "return res"
+    ]
+}
+
+
 def fn(tree, name):
     for n in ast.walk(tree):
         if isinstance(n, (ast.FunctionDef,)) and n.name == name:
@@ -61,19 +93,33 @@ def collect():
     f["untrustedSorted"] = isinstance(gut.body[-1], ast.Return) and ast.unparse(gut.body[-1].value) == "sorted(untrusted_types)"
     f["visualizeNoConstruct"] = not any(
         isinstance(n, ast.Call) and ast.unparse(n.func).endswith("construct") for n in ast.walk(vis))
+    def stmts(fd):
+        """the statements of a function, docstring dropped, as normalised source: facts about security-relevant functions
+        are exact statement lists, not substring tests (a seeded change once slipped an extra early return past one)"""
+        return [ast.unparse(b) for b in fd.body if not (isinstance(b, ast.Expr) and isinstance(b.value, ast.Constant))]
+
     at = fn(audit, "audit_tree")
-    src = ast.unparse(at)
-    f["auditRaisesOnUnsafe"] = "unsafe = tree.get_unsafe_set()" in src and "if unsafe:" in src \
-        and "raise UntrustedTypesFoundException(unsafe)" in src
+    f["auditRaisesOnUnsafe"] = stmts(at) == ["unsafe = tree.get_unsafe_set()", "if unsafe:\n    raise UntrustedTypesFoundException(unsafe)"]
     f["exceptionNamesSorted"] = "sorted(unsafe)" in exc
     f["npLoadNoPickle"] = "np.load(" in numpy_src and all(
         "allow_pickle=False" in numpy_src[i:i + 120] for i in range(len(numpy_src)) if numpy_src.startswith("np.load(", i))
     ct = fn(audit, "check_type")
-    f["checkTypeIsMembership"] = ast.unparse(ct.body[-1]) == "return module_name + '.' + type_name in trusted"
+    f["checkTypeIsMembership"] = stmts(ct) == ["return module_name + '.' + type_name in trusted"]
     gt = fn(audit, "_get_trusted")
-    s = ast.unparse(gt)
-    f["getTrustedIsCallerPlusDefault"] = "if trusted is None:" in s and "return get_type_paths(default)" in s \
-        and "return get_type_paths(trusted) + get_type_paths(default)" in s
+    f["getTrustedIsCallerPlusDefault"] = stmts(gt) == ["if trusted is None:\n    return get_type_paths(default)",
+                                                       "return get_type_paths(trusted) + get_type_paths(default)"]
+    node_cls = next(n for n in audit.body if isinstance(n, ast.ClassDef) and n.name == "Node")
+    f["baseNodeMethodsAsModelled"] = all(
+        stmts(next(m for m in node_cls.body if isinstance(m, ast.FunctionDef) and m.name == name)) == body
+        for name, body in BASE_NODE_BODIES.items())
+    # the conversion of the caller's list: strings as they are, types as "<module>.<__name__>"
+    f["typePathsKeepStrings"] = stmts(fn(utils, "get_type_paths")) == [
+        "if not types:\n    return []", "if not isinstance(types, (list, tuple)):\n    types = [types]",
+        "return [get_type_name(t) if not isinstance(t, str) else t for t in types]"]
+    f["typeNameIsModuleDotName"] = stmts(fn(utils, "get_type_name")) == ["return f'{get_module(t)}.{t.__name__}'"]
+    f["gettypeIsImportObj"] = stmts(fn(utils, "gettype")) == [
+        "if module_name and cls_or_func:\n    return _import_obj(module_name, cls_or_func)",
+        "raise ValueError(f'Object {cls_or_func} of module {module_name} is unknown')"]
     # ---- dump side (C06, C12, C18) --------------------------------------------------------------------
     gs = fn(utils, "get_state")
     body = [ast.unparse(b) for b in gs.body if not (isinstance(b, ast.Expr) and isinstance(b.value, ast.Constant))]
